@@ -84,10 +84,6 @@ TEMPLATES = [T_main, T_diamond]
 # ------------------------------------------------------------------------------------------ observation
 
 
-def item_get(m, path):
-    return get(m, path)
-
-
 def touch_all(m, items):
     evaluate(m)
     for p in items:
@@ -371,7 +367,6 @@ def _run_case(tname, pre, trig):
             return fail(["listing"], "closed model still listed by get_models()", ["m.close()",
                         "sys.exit(1 if 'M' in mx.get_models() else 0)"])
         return rec
-    hexprs = {}
     try:
         live_apply(m, trig)
     except DeletedObjectError:
